@@ -12,7 +12,11 @@ from . import sandbox
 from .findings import load_findings, match_finding
 
 VERIF = sandbox.VERIF
-EVID = os.path.join(VERIF, 'evidence')
+# VERIF_OUT redirects what a run writes (evidence, v-*.json) - used by the sensitivity tooling so that runs against
+# scratch trees never overwrite the evidence of the real tree; committed r-*.json replays are always read from REPLAYS
+OUT = os.environ.get('VERIF_OUT') or VERIF
+EVID = os.path.join(OUT, 'evidence')
+VOUT = os.path.join(OUT, 'replays')
 REPLAYS = os.path.join(VERIF, 'replays')
 
 
@@ -290,7 +294,7 @@ def run_check(prop, tier, seed):
     t0 = time.time()
     sandbox.cleanup_stale_homes()
     sandbox.ensure_pycode()
-    d = os.path.join(REPLAYS, prop)
+    d = os.path.join(VOUT, prop)
     if os.path.isdir(d):      # violation files of earlier runs (not the committed r-*.json replays)
         for f in os.listdir(d):
             if f.startswith('v-'):
@@ -405,13 +409,13 @@ def merge(prop, tier, seed, mod, results, t0):
 
     vlines = []
     seen = set()
-    os.makedirs(os.path.join(REPLAYS, prop), exist_ok=True)
+    os.makedirs(os.path.join(VOUT, prop), exist_ok=True)
     for v in violations:
         key = sha(dict(c=v.get('clause'), s=v.get('signature')))
         if key in seen:
             continue
         seen.add(key)
-        path = os.path.join(REPLAYS, prop, 'v-%s.json' % sha(v)[:12])
+        path = os.path.join(VOUT, prop, 'v-%s.json' % sha(v)[:12])
         with open(path, 'w') as fh:
             json.dump(v, fh, indent=1, default=_default)
         vlines.append('VIOLATION property=%s replay=%s' % (prop, path))
